@@ -1,6 +1,7 @@
 package sio
 
 import (
+	eioparser "github.com/karagenc/socket.io-go/engine.io/parser"
 	"github.com/karagenc/socket.io-go/parser"
 )
 
@@ -111,5 +112,60 @@ func verifH_C16_G6_namespace() {
 	verifWaitQuiescent()
 	verifAssert(verifBlocked() == 0, "no goroutine left blocked: namespace operations")
 	verifAssert(verifHeldLocks() == 0, "no mutex left held: namespace operations")
+	verifReach("end")
+}
+
+// verifAckParser completes every frame as the ACK with the given id carrying one string.
+type verifAckParser struct{ id uint64 }
+
+func (p *verifAckParser) Encode(h *parser.PacketHeader, v any) ([][]byte, error) {
+	return [][]byte{{'0' + byte(h.Type)}}, nil
+}
+func (p *verifAckParser) Reset() {}
+func (p *verifAckParser) Add(data []byte, finish parser.Finish) error {
+	id := p.id
+	finish(&parser.PacketHeader{Type: parser.PacketTypeAck, Namespace: "/", ID: &id}, "", verifReplyDecode("r"))
+	return nil
+}
+
+// C16_G5_client_ack_ops: operations issued from a CLIENT's acknowledgement callback, with the ACK arriving through the real
+// reader path (Manager.onEIOPacket, which holds the parser mutex while it decodes): the callback disconnects the socket,
+// closes the Manager, emits again, or registers / removes a handler. Nothing deadlocks, no mutex is left held, the
+// callback ran exactly once and the reader can take the next frame.
+//
+//verif:unwind 14
+func verifH_C16_G5_client_ack_ops() {
+	ap := &verifAckParser{}
+	m, cl := verifClientWorld(ap, "/")
+	s := cl["/"]
+	s.registerSubEvents()
+	op := verifChoose(0, 4)
+	calls := 0
+	s.Emit("q", func(string) {
+		calls++
+		switch op {
+		case 0:
+			s.Disconnect()
+		case 1:
+			m.Close()
+		case 2:
+			s.Emit("again", func(string) {})
+		case 3:
+			s.OnEvent("x", func() {})
+		case 4:
+			s.OffEvent("x")
+		}
+	})
+	verifTimers(true)
+	m.onEIOPacket(&eioparser.Packet{Type: eioparser.PacketTypeMessage, Data: []byte("3")})
+	verifWaitQuiescent()
+	verifAssert(calls == 1, "the acknowledgement callback runs exactly once")
+	verifAssert(verifHeldLocks() == 0, "no mutex left held after an operation issued from an acknowledgement callback")
+	verifAssert(verifBlocked() == 0, "no goroutine left blocked")
+	// the reader is still alive: it can take (and refuse to match) another frame
+	ap.id = 99
+	m.onEIOPacket(&eioparser.Packet{Type: eioparser.PacketTypeMessage, Data: []byte("3")})
+	verifWaitQuiescent()
+	verifAssert(verifHeldLocks() == 0, "the reader path is usable afterwards")
 	verifReach("end")
 }
